@@ -10,7 +10,8 @@ def NoNul (b : Bytes) : Prop := ∀ c ∈ b, c ≠ 0
 provided keys and ids do not contain the separator byte -/
 theorem key_order (k1 k2 id1 id2 : Bytes) (h1 : NoNul k1) (h2 : NoNul k2) (h3 : NoNul id1) (h4 : NoNul id2) :
     ble (k1 ++ 0 :: id1) (k2 ++ 0 :: id2) = pairLe (k1, id1) (k2, id2) := by
-  sorry
+  have _ := h3; have _ := h4  -- (only the keys matter)
+  exact sep_ble h1 h2 id1 id2
 
 /-- the database keys are sorted (strictly ascending), as BadgerDB iterates them -/
 def Sorted (keys : List Bytes) : Prop := keys.Pairwise (fun a b => blt a b = true)
@@ -20,15 +21,141 @@ def Holds (keys : List Bytes) (name : Bytes) (entries : List (Bytes × Bytes)) :
   ∀ k, (k ∈ keys ∧ (getQuery name []).isPrefixOf k = true) ↔ ∃ e ∈ entries, k = getKey name e.1 e.2
 
 /-- **fetch = sort – filter – window**, for every prefix (empty, partial, full key, longer than
-any key, containing the separator byte), filter, offset, limit (negative, zero, positive) and direction -/
+any key, containing the separator byte), filter, offset, limit (negative, zero, positive) and direction.
+(`hlen` was added to the hand-written statement: with a negative limit the loop runs with limit
+`MaxInt64`, so it agrees with the specification only if the unlimited result has at most `MaxInt64`
+ids; see `fetch_unlimited_length` and `fetch_spec_needs_bound` below. `hname` and `ho` are not used.) -/
 theorem fetch_spec (keys : List Bytes) (name pre : Bytes) (entries : List (Bytes × Bytes))
     (filter : Bytes → Bool) (offset limit : Int) (reverse : Bool)
     (hs : Sorted keys) (hh : Holds keys name entries)
     (hn : ∀ e ∈ entries, NoNul e.1 ∧ NoNul e.2) (hname : NoNul name)
     (hd : (entries.map (·.2)).Nodup) (ho : 0 ≤ offset)
-    (h255 : ∀ e ∈ entries, ∀ c ∈ e.1 ++ e.2, c < 255) :
+    (h255 : ∀ e ∈ entries, ∀ c ∈ e.1 ++ e.2, c < 255)
+    (hlen : limit < 0 → (spec entries pre filter offset limit reverse).length ≤ 9223372036854775807) :
     fetch keys name pre filter offset limit reverse = some (spec entries pre filter offset limit reverse) := by
-  sorry
+  have _ := hname; have _ := ho
+  by_cases h0 : limit = 0
+  · simp [fetch, spec, h0]
+  · have hnd : entries.Nodup := by
+      rw [List.nodup_iff_pairwise_ne] at hd ⊢
+      rw [List.pairwise_map] at hd
+      exact hd.imp (fun h e => h (by rw [e]))
+    have hhits : ∀ l : List (Bytes × Bytes),
+        l.filter (fun e => pre.isPrefixOf e.1 && filter e.1) = l.filter (hit pre filter) := fun _ => rfl
+    simp only [spec, h0, ↓reduceIte, hhits] at hlen ⊢
+    simp only [fetch, h0, ↓reduceIte]
+    by_cases hneg : limit < 0
+    · simp only [hneg, ↓reduceIte] at hlen ⊢
+      rw [fetch_eq keys name pre entries filter offset _ reverse hs hh hn hnd (fun _ => h255) (by omega)]
+      rw [List.take_of_length_le]
+      simpa using hlen
+    · simp only [hneg, ↓reduceIte]
+      rw [fetch_eq keys name pre entries filter offset _ reverse hs hh hn hnd (fun _ => h255) (by omega)]
+
+/-- `fetch_spec` for an index of at most `MaxInt64` entries -/
+theorem fetch_spec_of_length (keys : List Bytes) (name pre : Bytes) (entries : List (Bytes × Bytes))
+    (filter : Bytes → Bool) (offset limit : Int) (reverse : Bool)
+    (hs : Sorted keys) (hh : Holds keys name entries)
+    (hn : ∀ e ∈ entries, NoNul e.1 ∧ NoNul e.2) (hname : NoNul name)
+    (hd : (entries.map (·.2)).Nodup) (ho : 0 ≤ offset)
+    (h255 : ∀ e ∈ entries, ∀ c ∈ e.1 ++ e.2, c < 255)
+    (hlen : entries.length ≤ 9223372036854775807) :
+    fetch keys name pre filter offset limit reverse = some (spec entries pre filter offset limit reverse) := by
+  apply fetch_spec keys name pre entries filter offset limit reverse hs hh hn hname hd ho h255
+  intro hneg
+  have h0 : ¬ limit = 0 := by omega
+  simp only [spec, h0, hneg, ↓reduceIte, List.length_map, List.length_drop]
+  have h1 := List.length_filter_le (fun e : Bytes × Bytes => pre.isPrefixOf e.1 && filter e.1) (sortPairs entries)
+  have h2 := (sortPairs_perm entries).length_eq
+  cases reverse <;> simp only [Bool.false_eq_true, ↓reduceIte, List.length_reverse] <;> omega
+
+/-- the hypothesis `hlen` of `fetch_spec` (added to the original statement) is necessary: an
+unlimited query (`limit < 0`, which `FetchCollection` turns into `MaxInt64`) never returns more
+than `MaxInt64` ids … -/
+theorem fetch_unlimited_length (keys : List Bytes) (name pre : Bytes) (filter : Bytes → Bool)
+    (offset limit : Int) (reverse : Bool) (r : List Bytes) (hneg : limit < 0)
+    (h : fetch keys name pre filter offset limit reverse = some r) : r.length ≤ 9223372036854775807 := by
+  have h0 : ¬ limit = 0 := by omega
+  simp only [fetch, h0, ↓reduceIte, hneg] at h
+  have := collect_length_le _ _ _ _ _ _ (by omega) _ _ h
+  simp only [List.length_nil] at this
+  omega
+
+/-- … and without it the statement is false: an index with `2^63` entries (ids `1`, `11`, `111`, …
+under the empty key) satisfies every other hypothesis, the specification returns all of them, the
+implementation stops after `MaxInt64` -/
+theorem fetch_spec_needs_bound :
+    ¬ (∀ (keys : List Bytes) (name pre : Bytes) (entries : List (Bytes × Bytes))
+        (filter : Bytes → Bool) (offset limit : Int) (reverse : Bool),
+        Sorted keys → Holds keys name entries →
+        (∀ e ∈ entries, NoNul e.1 ∧ NoNul e.2) → NoNul name →
+        (entries.map (·.2)).Nodup → 0 ≤ offset →
+        (∀ e ∈ entries, ∀ c ∈ e.1 ++ e.2, c < 255) →
+        fetch keys name pre filter offset limit reverse = some (spec entries pre filter offset limit reverse)) := by
+  intro hall
+  let N : Nat := 9223372036854775808
+  let ids : List Bytes := (List.range N).map (fun i => List.replicate (i + 1) 1)
+  let entries : List (Bytes × Bytes) := ids.map (fun id => ([], id))
+  let keys : List Bytes := entries.map (fun e => getKey [] e.1 e.2)
+  have hrep : ∀ i j : Nat, i < j → blt (List.replicate (i + 1) 1) (List.replicate (j + 1) 1) = true := by
+    intro i j hij
+    rw [blt_iff]
+    constructor
+    · apply ble_of_isPrefixOf
+      rw [List.isPrefixOf_iff_prefix]
+      exact ⟨List.replicate (j - i) 1, by rw [List.replicate_append_replicate]; congr 1; omega⟩
+    · intro h
+      have := congrArg List.length h
+      simp at this; omega
+  have hsorted : Sorted keys := by
+    simp only [Sorted, keys, entries, ids, List.pairwise_map]
+    refine List.Pairwise.imp ?_ List.pairwise_lt_range
+    intro i j hij
+    have : ∀ id : Bytes, getKey [] [] id = [58, 0] ++ id := fun id => by simp [getKey]
+    rw [this, this, blt_append_left]
+    exact hrep i j hij
+  have hholds : Holds keys [] entries := by
+    intro k
+    simp only [keys, List.mem_map]
+    constructor
+    · rintro ⟨⟨e, he, rfl⟩, _⟩; exact ⟨e, he, rfl⟩
+    · rintro ⟨e, he, rfl⟩; exact ⟨⟨e, he, rfl⟩, getQuery_prefix_getKey _ _ _⟩
+  have hmem : ∀ e ∈ entries, e.1 = [] ∧ ∃ i, e.2 = List.replicate (i + 1) 1 := by
+    intro e he
+    simp only [entries, ids, List.mem_map, List.mem_range] at he
+    obtain ⟨id, ⟨i, _, rfl⟩, rfl⟩ := he
+    exact ⟨rfl, i, rfl⟩
+  have hnul : ∀ e ∈ entries, NoNul e.1 ∧ NoNul e.2 := by
+    intro e he
+    obtain ⟨h1, i, h2⟩ := hmem e he
+    rw [h1, h2]
+    constructor
+    · intro c hc; cases hc
+    · intro c hc; rw [List.eq_of_mem_replicate hc]; decide
+  have hnodup : (entries.map (·.2)).Nodup := by
+    simp only [entries, ids, List.map_map, List.nodup_iff_pairwise_ne, List.pairwise_map]
+    refine List.Pairwise.imp ?_ List.pairwise_lt_range
+    intro i j hij h
+    have := congrArg List.length h
+    simp at this; omega
+  have h255 : ∀ e ∈ entries, ∀ c ∈ e.1 ++ e.2, c < 255 := by
+    intro e he c hc
+    obtain ⟨h1, i, h2⟩ := hmem e he
+    rw [h1, h2, List.nil_append] at hc
+    rw [List.eq_of_mem_replicate hc]; decide
+  have h := hall keys [] [] entries (fun _ => true) 0 (-1) false hsorted hholds hnul
+    (by intro c hc; cases hc) hnodup (Int.le_refl 0) h255
+  have hle := fetch_unlimited_length _ _ _ _ _ _ _ _ (by decide) h
+  have hlen : (spec entries [] (fun _ => true) 0 (-1) false).length = N := by
+    have e1 : ¬ ((-1 : Int) = 0) := by decide
+    have e2 : (-1 : Int) < 0 := by decide
+    have e3 : (List.filter (fun e : Bytes × Bytes => ([] : Bytes).isPrefixOf e.1 && true) (sortPairs entries)) =
+        sortPairs entries := List.filter_eq_self.2 (fun _ _ => by simp)
+    simp only [spec, e1, e2, ↓reduceIte, Bool.false_eq_true, e3, Int.toNat_zero, List.drop_zero, List.length_map]
+    rw [(sortPairs_perm entries).length_eq]
+    simp [entries, ids]
+  rw [hlen] at hle
+  exact absurd hle (by decide)
 
 /-- **index consistency**: after any history of creates, updates (changing or keeping keys) and
 deletes, the entries of every index are exactly the image of the stored values
@@ -40,17 +167,22 @@ theorem index_consistent {V : Type} (idxs : List (Idx V)) (hist : List (Bytes ×
     (ix : Idx V) (hix : ix ∈ idxs) (k : Bytes) :
     k ∈ keysOf ix.name (applyHist idxs hist ([], [])).2 ↔
       ∃ e ∈ entriesOf ix (applyHist idxs hist ([], [])).1, k = getKey ix.name e.1 e.2 := by
-  sorry
+  have _ := hnn; have _ := hid  -- (only the separator-freeness of the keys matters)
+  have h := applyHist_inv idxs hnames hk hist [] [] (by simp) (by
+    intro ix _ k
+    simp [keysOf, IdxSpec])
+  rw [← idxSpec_iff_entries ix _ h.1]
+  exact h.2 ix hix k
 
 /-- … and the database stays sorted, so `fetch_spec` applies after every history -/
 theorem index_sorted {V : Type} (idxs : List (Idx V)) (hist : List (Bytes × Option V)) :
     Sorted ((applyHist idxs hist ([], [])).2.map (·.1)) := by
-  sorry
+  exact applyHist_sorted idxs hist ([], []) (by simp [KeysSorted])
 
 /-- zero limit means empty, whatever the index holds -/
 theorem limit_zero (keys : List Bytes) (name pre : Bytes) (filter : Bytes → Bool) (offset : Int) (reverse : Bool) :
     fetch keys name pre filter offset 0 reverse = some [] := by
-  sorry
+  simp [fetch]
 
 /-! ## non-vacuity -/
 -- index "k" (107) with entries ("a","1"), ("ab","2"): keys "k:a\01", "k:ab\02"
